@@ -164,11 +164,54 @@ def run_case(griffe, acc, case):
                 acc.violation(key, f"{ptr}: {deep.message[:160]}", {**cd, "files": files}, {"validator": deep.validator, "schema_path": "/".join(map(str, deep.absolute_schema_path))[:200]}, size=size)
 
 
+def _run_cli(griffe, acc):
+    """The published schema describes what `griffe dump -f` writes: one file holding every package, or one file per package ({package} template)."""
+    from _griffe import cli
+
+    v = _validator()
+    for container in ("module", "package", "namespace"):
+        for feature in ("function", "class", "imports", "dataclass"):
+            for mode in ("single-file", "per-package"):
+                for resolve in (False, True):
+                    cd = {"case": [container, feature, None, "static"], "cli": mode, "resolve_aliases": resolve}
+                    with sandbox.scratch_dir("c09c") as d, sandbox.interpreter_state():
+                        files, top, subs = corpus.files_for(container, feature, None)
+                        sandbox.write_tree(d, files)
+                        sps = [os.path.join(d, s) for s in subs]
+                        out = os.path.join(d, "dump-{package}.json" if mode == "per-package" else "dump.json")
+                        args = ["dump", top, "-f", "-o", out, "-X"] + [x for sp in sps for x in ("-s", sp)] + (["-r", "-I", "--no-resolve-external"] if resolve else [])
+                        cwd = os.getcwd()
+                        try:
+                            os.chdir(d)
+                            cli.main(args)
+                            text = open(out.replace("{package}", top)).read()
+                            data = json.loads(text)
+                            doc = data if mode == "per-package" else data[top]
+                        except BaseException as e:  # noqa: BLE001
+                            acc.violation(f"cli/{type(e).__name__}/{mode}", f"griffe {' '.join(a if not a.startswith('/') else '<p>' for a in args)} failed: {e!r}", cd, None, size=1)
+                            continue
+                        finally:
+                            os.chdir(cwd)
+                    errors = list(v.iter_errors(doc))
+                    acc.case(cd, outcome=f"cli/{mode}:{'invalid' if errors else 'valid'}", nontrivial=True)
+                    acc.observe(len(errors))
+                    seen = set()
+                    for err in errors:
+                        deep = _deepest(err)
+                        ptr = _pointer(deep, doc)
+                        key = f"schema/{ptr}/{deep.validator}/cli-{mode}"
+                        if key not in seen:
+                            seen.add(key)
+                            acc.violation(key, f"`griffe dump -f` ({mode}): {ptr}: {deep.message[:160]}", cd, None, size=1)
+
+
 def run_shard(shard, tier):
     boot.boot()
     import griffe
 
     acc = Acc()
+    if shard == 0:
+        _run_cli(griffe, acc)
     for idx, case in enumerate(corpus.cases(tier)):
         if idx % NSHARDS != shard:
             continue
@@ -186,5 +229,8 @@ def replay(case):
     import griffe
 
     acc = Acc()
-    run_case(griffe, acc, tuple(case["case"]))
+    if "cli" in case:
+        _run_cli(griffe, acc)
+    else:
+        run_case(griffe, acc, tuple(case["case"]))
     return [(k, v["summary"], v["detail"]) for k, v in acc.violations.items()]
